@@ -320,6 +320,13 @@ def step (w : World) (ws : List String) : World × List String :=
       listUnderFault w ci x (bytesOfHex p) (vs.map (valOfWords ty)) true
   | "SM" :: c :: p :: vs => withCtx c fun ci x =>
       emitApi w ci x (apiSetmulti orc w.k x.cfg (bytesOfHex p) (vs.map optOfHex))
+  | ["SLA", c, p, i, j] => withCtx c fun ci x =>
+      -- cfg_setlist(cfg, name, 2, cfg_getnstr(cfg, name, i), cfg_getnstr(cfg, name, j)): the arguments are elements of the list replaced
+      let cur (k : Nat) : Val :=
+        match (getoptPath x.cfg (bytesOfHex p)).ref.bind x.cfg.getOpt with
+        | some o => (match o.ty, o.vals[k]? with | .str, some (.str s) => .str s | _, _ => .str none)
+        | none => .str none
+      emitApi w ci x (apiList x.cfg (bytesOfHex p) [cur i.toNat!, cur j.toNat!] false)
   | ["SSA", c, p, idx] => withCtx c fun ci x =>
       -- cfg_setnstr(cfg, name, cfg_getnstr(cfg, name, i), i): the argument aliases what the call may release
       let cur : Val :=
